@@ -504,7 +504,12 @@ def ob_fault_witnesses(pid, D, label="C06.e"):
         shutil.rmtree(tmp, ignore_errors=True)
         os.makedirs(tmp)
         n = 0
-        for minlen in (0, 40):
+        allfalse = os.path.join(tmp, "allfalse.yaml")
+        open(allfalse, "w").write("input:\n" + "".join("  include_undocumented_%s: false\n" % k for k in
+                                  ("function", "macro", "cpp_class", "cpp_attr", "cpp_member", "cpp_constructor", "ct_add_test", "ct_add_section", "add_test", "option")))
+        # second pass: the same fault classes under another configuration (nothing undocumented is included): failing loudly does not
+        # depend on the settings
+        for (minlen, cfg) in ((0, None), (40, None), (0, allfalse)):
             for (fname, pname, lang) in cases:
                 r = lang if minlen == 0 else and_(lang, cat(*([REALC] * minlen), ALL))
                 res, w = q.witness("%s %s" % (fname, pname), and_(r, ALL))
@@ -517,17 +522,17 @@ def ob_fault_witnesses(pid, D, label="C06.e"):
                 src = os.path.join(tmp, "f%d.cmake" % n)
                 out = os.path.join(tmp, "o%d" % n)
                 open(src, "w", encoding="utf-8").write(w)
-                p = subprocess.run([vf.PY, "-W", "ignore", "-c", "import sys, cminx; cminx.main([sys.argv[1], '-o', sys.argv[2]])", src, out],
+                p = subprocess.run([vf.PY, "-W", "ignore", "-c", "import sys, cminx; cminx.main(sys.argv[1:2] + ['-o', sys.argv[2]] + sys.argv[3:])", src, out] + (["-s", cfg] if cfg else []),
                                    capture_output=True, text=True, timeout=120,
                                    env=dict(os.environ, PYTHONPATH=os.path.join(vf.REPO, "src"), XDG_CONFIG_HOME=os.path.join(work, "xdg")))
                 wrote = os.path.isdir(out) and any(f.endswith(".rst") for f in os.listdir(out))
                 if p.returncode == 0 or wrote:
-                    bad.append(("%s %s" % (fname, pname), w, True, "cminx exit status %d, page written: %s" % (p.returncode, wrote)))
+                    bad.append(("%s %s%s" % (fname, pname, " [all include_undocumented_* off]" if cfg else ""), w, True, "cminx exit status %d, page written: %s" % (p.returncode, wrote)))
                 if len(samples) < 3 and minlen == 0:
                     samples.append({"fault": fname, "position": pname, "file_text": w, "exit_status": p.returncode})
         out = _finish(pid, label, work, bad, unknown, q0, n0, t0, q, samples, validated=n)
         if out["verdict"] == vf.HOLDS:
-            out["detail"] = "%d solver-chosen faulty files (7 fault classes x 6-7 position classes x 2 sizes): every one fails with non-zero status and writes nothing" % n
+            out["detail"] = "%d solver-chosen faulty files (7 fault classes x 6-7 position classes; two sizes, two configurations): every one fails with non-zero status and writes nothing" % n
         return out
     return vf.FN("%s end-to-end witnesses: every fault class at every position class makes cminx.main fail and write nothing" % label, fn,
                  engine="z3 picks members of the composed languages; each is replayed through the real CLI entry point (witness replay, not exhaustive)",
